@@ -21,13 +21,15 @@ type Profile struct {
 }
 
 var (
-	ScalarsTiny   = []any{1.0, 2.0, 3.0, "a"}
-	ScalarsSmall  = []any{0.0, 1.0, 2.0, 3.0, "a", "b", "", true, false, "true"}
-	ScalarsNulls  = []any{0.0, 1.0, 2.0, "a", "b", "", true, false, "null", "false", nil}
-	ScalarsNum    = []any{0.0, 1.0, 2.0, 3.0, 1.5, -1.0}
-	KeysSmall     = []string{"a", "b", "c", "d"}
-	KeysHostile   = []string{"a", "b", "", "a/b", "m~n", "~0", "~1", "~01", "é", " ", "x y", "1a", "-x", "a\"b", "\\", "<&>", "a/b/c", "~~", "x/y~z/~0~1", "//", "a b", "b a", "a 1", "k\u0001", "\u007f", "bell\a"}
-	KeysNumberish = []string{"0", "1", "-1", "01", "-", "+1", "1e3", "12"}
+	ScalarsTiny  = []any{1.0, 2.0, 3.0, "a"}
+	ScalarsSmall = []any{0.0, 1.0, 2.0, 3.0, "a", "b", "", true, false, "true"}
+	ScalarsNulls = []any{0.0, 1.0, 2.0, "a", "b", "", true, false, "null", "false", nil}
+	ScalarsNum   = []any{0.0, 1.0, 2.0, 3.0, 1.5, -1.0}
+	// numbers whose spelling is not trivial: 17 significant digits, exponents of both signs, the extremes
+	ScalarsNumbers = []any{0.0, 1.0, -1.0, 2.5, 0.1 + 0.2, 0.3, 1e21, 1e-7, 1.2345678901234568e20, 123456789012345680.0, 5e-324, 1.7976931348623157e308, 100.0, 1.0 / 3, "1", "a"}
+	KeysSmall      = []string{"a", "b", "c", "d"}
+	KeysHostile    = []string{"a", "b", "", "a/b", "m~n", "~0", "~1", "~01", "é", " ", "x y", "1a", "-x", "a\"b", "\\", "<&>", "a/b/c", "~~", "x/y~z/~0~1", "//", "a b", "b a", "a 1", "k\u0001", "\u007f", "bell\a"}
+	KeysNumberish  = []string{"0", "1", "-1", "01", "-", "+1", "1e3", "12"}
 )
 
 var (
@@ -36,6 +38,7 @@ var (
 	PTiny    = Profile{MaxDepth: 3, MaxFan: 5, Scalars: ScalarsTiny, Keys: []string{"a", "b", "c"}, PArr: 0.65, PLeaf: 0.4, Empty: true}
 	PDeep    = Profile{MaxDepth: 5, MaxFan: 3, Scalars: ScalarsSmall, Keys: KeysSmall, PArr: 0.6, PLeaf: 0.3, Empty: true}
 	PObjects = Profile{MaxDepth: 4, MaxFan: 4, Scalars: ScalarsSmall, Keys: KeysSmall, PArr: 0.2, PLeaf: 0.35, Empty: true}
+	PNumbers = Profile{MaxDepth: 3, MaxFan: 4, Scalars: ScalarsNumbers, Keys: KeysSmall, PArr: 0.55, PLeaf: 0.4, Empty: true}
 	PHostile = Profile{MaxDepth: 3, MaxFan: 4, Scalars: ScalarsSmall, Keys: KeysHostile, PArr: 0.45, PLeaf: 0.35, Empty: true}
 )
 
